@@ -37,6 +37,7 @@ type Exec struct {
 	unsupported   []string
 	inSpec        bool
 	encCache      map[string]Term
+	fieldTypeKey  map[string]string // heap key of a map-typed struct field -> type key of the field
 	inTypeInv     bool
 	boxedAddrs    map[string]VAddr
 	subLits       map[string]Term
@@ -87,6 +88,13 @@ func (x *Exec) assume(st *State, fact Term) {
 
 func (x *Exec) oblige(fr *Frame, st *State, kind, detail, desc string, pos token.Pos, goal Term, props []string) {
 	if goal.IsTrue() || st.pc.IsFalse() {
+		return
+	}
+	if isImplicitKind(kind) && x.contract != nil && x.contract.Opts["implicit"] == "assume" && !x.inSpec {
+		// configuration-time function: its panic-safety obligations are not part of what its
+		// contract is used for; they are assumed and listed, not proved
+		x.vc.assumption("implicit safety obligations (nil, bounds, conversions) of %s are assumed, not proved (opt implicit=assume)", x.contract.Key)
+		x.assume(st, goal)
 		return
 	}
 	if kind == "nil" && x.assumeNil {
@@ -899,6 +907,7 @@ func (x *Exec) execInstr(fr *Frame, st *State, in ssa.Instruction) {
 	case *ssa.MakeMap:
 		ref := x.newRef(fr)
 		x.mapInit(st, in.Type(), ref)
+		x.freshMapUnreferenced(st, ref, in.Type())
 		fr.regs[in] = VTerm{ref}
 	case *ssa.MapUpdate:
 		x.mapUpdate(fr, st, in)
@@ -1041,6 +1050,12 @@ func (x *Exec) loadField(st *State, obj Term, stt *types.Struct, skey string, i 
 	default:
 		s, _ := scalarSort(ft)
 		t := Select(x.heapGet(st, key, arrOf(s)), obj)
+		if kindOf(ft) == KMap {
+			if x.fieldTypeKey == nil {
+				x.fieldTypeKey = map[string]string{}
+			}
+			x.fieldTypeKey[key] = typeKey(ft)
+		}
 		if s == SStr {
 			x.vc.strFacts(t)
 		}
@@ -2148,4 +2163,37 @@ func (x *Exec) convert(fr *Frame, st *State, in *ssa.Convert) Value {
 	}
 	x.vc.note("conversion %s -> %s not modelled", from, to)
 	return x.fresh(to, "conv")
+}
+
+// freshMapUnreferenced: a map that has just been made is not yet stored anywhere: no field of map
+// type and no map value of that type, in the current heap, refers to it. (Needed for heap-wide
+// separation invariants; stated only for the heap arrays the function has touched so far.)
+func (x *Exec) freshMapUnreferenced(st *State, ref Term, t types.Type) {
+	tk, uk := typeKey(t), typeKey(t.Underlying())
+	for _, k := range sortedKeys(x.heapSorts) {
+		srt := x.heapSorts[k]
+		switch {
+		case strings.HasPrefix(k, "map|") && strings.HasSuffix(k, "#val"):
+			// "map|map[K]V#val"
+			body := strings.TrimSuffix(strings.TrimPrefix(k, "map|"), "#val")
+			i := strings.Index(body, "]")
+			if i < 0 || (body[i+1:] != tk && body[i+1:] != uk) {
+				continue
+			}
+			if !strings.HasPrefix(string(srt), "(Array Int (Array ") {
+				continue
+			}
+			ks := SInt
+			if strings.Contains(string(srt), "(Array Str") {
+				ks = SStr
+			}
+			x.vc.ctr++
+			o, kk := Term{fmt.Sprintf("fo!q%d", x.vc.ctr), SInt}, Term{fmt.Sprintf("fk!q%d", x.vc.ctr), ks}
+			x.assume(st, Term{fmt.Sprintf("(forall ((%s Int) (%s %s)) (not (= %s %s)))", o.S, kk.S, string(ks), Select(Select(x.heapGet(st, k, srt), o), kk).S, ref.S), SBool})
+		case srt == arrOf(SInt) && x.fieldTypeKey[k] != "" && (x.fieldTypeKey[k] == tk || x.fieldTypeKey[k] == uk):
+			x.vc.ctr++
+			o := Term{fmt.Sprintf("fo!q%d", x.vc.ctr), SInt}
+			x.assume(st, Term{fmt.Sprintf("(forall ((%s Int)) (not (= %s %s)))", o.S, Select(x.heapGet(st, k, srt), o).S, ref.S), SBool})
+		}
+	}
 }
